@@ -1,6 +1,6 @@
 #!/usr/bin/env python3
 """Regenerates MANIFEST.json from harness/manifest_src.py (single source of truth for levels and notes)."""
-import json, os, sys
+import json, os, re, sys
 sys.path.insert(0, os.path.dirname(os.path.abspath(__file__)))
 from harness.manifest_src import CHECKS, NOT_APPLICABLE, NOTES
 
@@ -10,6 +10,8 @@ checks = []
 for pid in ids:
     if pid in CHECKS:
         c = CHECKS[pid]
+        nthm = len(json.load(open(f'lean/obligations/{pid}.json'))['theorems'])
+        c = dict(c, text=re.sub(r'\(\d+ theorems\)', f'({nthm} theorems)', c['text']))
         checks.append({
             'property_id': pid,
             'quick_cmd': f'./check {pid} --tier quick',
